@@ -1,6 +1,7 @@
 """C05 - AGP and TPF parse/format round-trip without loss."""
 
 import io
+import os
 
 from hypothesis import strategies as st
 
@@ -21,7 +22,9 @@ RULE = (
     "raise or round-trip), cli (AGP -> TPF -> AGP through asm-format changes nothing but tags), lines (canonical text with "
     "line-level corruptions - deleted column, junk strand, start > end, non-numeric coordinate, truncated line, blank and "
     "comment lines inserted: parsing raises, or yields exactly one row per data line, each in the scaffold its line names, in "
-    "order). Non-trivial = >= 2 scaffolds, >= 1 gap and a name containing ':' or '-' or a tag (round trips); a corrupted text "
+    "order), fuzz (Atheris / libFuzzer, coverage-guided over raw bytes, first byte selects the format; empty corpus and a "
+    "corpus of four small valid texts; the target checks one-row-per-line and parse/format idempotence; evaluations = executed "
+    "units, non-trivial = coverage-increasing inputs kept in the corpus). Non-trivial = >= 2 scaffolds, >= 1 gap and a name containing ':' or '-' or a tag (round trips); a corrupted text "
     "that still parses (lines); distinct by SHA-1."
 )
 ASSUMPTIONS = [
@@ -297,6 +300,83 @@ def line_cases(draw):
     return {"format": which, "text": "\n".join(lines) + "\n", "ops": ops}
 
 
+# ---- coverage-guided fuzzing (Atheris)
+
+
+def body_fuzz_replay(case, rec):
+    """replay of an input found by the fuzzer (same oracle as inside the target)"""
+    from vf import fuzz_oracle
+
+    rec.note(case, True, {"fuzz_replay"})
+    fuzz_oracle.check_text(case["format"], case["text"])
+
+
+def run_fuzz(rec, tier, seed_value, shard, nshards, handle):
+    import json
+    import shutil
+    import subprocess
+    import sys
+    import tempfile
+    from pathlib import Path
+
+    from vf.remap import SCRATCH_ROOT
+    from vf.runner import VERIF_DIR, repo_dir
+
+    runs = {"quick": 400000, "thorough": 24000000}[tier] // nshards
+    work = Path(tempfile.mkdtemp(prefix="vf-fuzz-", dir=SCRATCH_ROOT))
+    try:
+        corpus = work / "corpus"
+        corpus.mkdir()
+        seeded = shard % 2 == 1
+        if seeded:
+            # a few small valid inputs, as in the repository's tests
+            samples = [
+                b"\x00scaffold_1\t1\t100\t1\tW\tctg1\t1\t100\t+\tPainted\nscaffold_1\t101\t300\t2\tU\t200\tscaffold\tyes\tproximity_ligation\n",
+                b"\x00# HiC MAP RESOLUTION: 1.5 bp/texel\ns\t1\t5\t1\tW\tc:1-2\t3\t7\t?\n",
+                b"\x01?\tctg1:1-100\tscaffold_1\tPLUS\nGAP\tTYPE-2\t200\n?\tctg2:5-9\tscaffold_1\tMINUS\n",
+                b"\x01## header\n?\ta-b:1-2:3-4\tx y\tPLUS\nGAP\tSHORT-ARM\t1\n",
+            ]
+            for i, smp in enumerate(samples):
+                (corpus / f"seed{i}").write_bytes(smp)
+        stats = work / "stats.json"
+        art = work / "crash-"
+        cmd = [sys.executable, str(VERIF_DIR / "vf" / "fuzz_c05.py"), str(stats), f"-runs={runs}", f"-seed={seed_value % 2**31 or 1}",
+               "-max_len=400", f"-artifact_prefix={art}", "-print_final_stats=1", "-timeout=30", str(corpus)]
+        env = dict(os.environ, VERIF_REPO=str(repo_dir()), PYTHONHASHSEED="0")
+        r = subprocess.run(cmd, capture_output=True, text=True, env=env, timeout=3600)
+        st_ = json.loads(stats.read_text()) if stats.exists() else {"execs": 0, "parsed": 0, "parsed_multi_line": 0}
+        execs = st_["execs"]
+        for line in r.stderr.splitlines():
+            if "number_of_executed_units" in line:
+                execs = int(line.split()[-1])
+        rec.evaluations += execs
+        rec.classes["fuzz_inputs_that_parsed"] += st_["parsed"]
+        rec.classes["corpus_seeded" if seeded else "corpus_empty"] += 1
+        # distinct non-trivial = corpus entries (coverage-increasing inputs) kept by libFuzzer
+        for f in corpus.iterdir():
+            rec.nontrivial.add(int.from_bytes(f.name.encode()[:8].ljust(8, b"0"), "big") ^ hash(f.read_bytes()) & (2**63 - 1))
+        if len(rec.samples) == 0:
+            kept = sorted(corpus.iterdir(), key=lambda f: f.stat().st_size)
+            if kept:
+                b = kept[len(kept) // 2].read_bytes()
+                rec.samples["first"] = (len(b), json.dumps({"format": "tpf" if b[:1] and b[0] & 1 else "agp", "text": b[1:].decode("latin-1")}))
+        crashes = sorted(work.glob("crash-*"))
+        if crashes:
+            b = crashes[0].read_bytes()
+            case = {"format": "tpf" if b[0] & 1 else "agp", "text": b[1:].decode("latin-1")}
+            handle(case, lambda: body_fuzz_replay(case, rec))
+            if rec.failure is None:
+                from vf.runner import HarnessError
+
+                raise HarnessError(f"fuzzer reported a crash that does not replay: {crashes[0].name}\n{r.stderr[-800:]}")
+        elif r.returncode != 0:
+            from vf.runner import HarnessError
+
+            raise HarnessError(f"atheris run failed ({r.returncode}): {r.stderr[-800:]}")
+    finally:
+        shutil.rmtree(work, ignore_errors=True)
+
+
 SUBS = [
     Sub("agp", kind="hyp", strategy=assembly_cases, body=body_agp,
         budget={"quick": 8000, "thorough": 150000}, desc="parse_agp(format_agp(a)) = a; format(parse(text)) = text"),
@@ -306,4 +386,7 @@ SUBS = [
         body=body_cli, budget={"quick": 320, "thorough": 5000}, desc="asm-format AGP -> TPF -> AGP"),
     Sub("lines", kind="hyp", strategy=line_cases, body=body_lines,
         budget={"quick": 8000, "thorough": 150000}, desc="corrupted lines: error, or exactly one row per data line in the scaffold the line names"),
+    Sub("fuzz", kind="custom", run=run_fuzz, body=body_fuzz_replay, workers=8,
+        budget={"quick": 400000, "thorough": 24000000},
+        desc="Atheris (libFuzzer) coverage-guided fuzzing of parse_agp / parse_tpf, empty and seeded corpus; oracle in the target: one row per line + parse/format idempotence"),
 ]
